@@ -15,7 +15,8 @@ Monitors (DESIGN.md 4/C04):
   star_reload        driver: StopgapMotl(path) / Motl.load(path,'stopgap') / stopgap2emmotl(path[,update]) reproduce the
                      14 fields to STAR precision.
   inmem_roundtrip    driver: StopgapMotl(convert_to_sg_motl(df)).df equals df on the 14 fields exactly.
-  converters         driver: objects returned by emmotl2stopgap / stopgap2emmotl hold the 14 fields (exactly in memory).
+  converters         driver: objects RETURNED by emmotl2stopgap / relion2stopgap / stopgap2emmotl hold the 14 fields exactly
+                     (update_coord form when update_coordinates=True), with and without an output path.
 """
 import os
 
@@ -51,12 +52,12 @@ def plan(tier):
     if tier == "quick":
         return dict(n_cases=len(CLASSES) * 4 * 6, shards=4, classes=CLASSES, timeout_s=600,
                     min_evals={"sg_export": 700, "sg_import": 1100, "write_out_file": 400, "star_fields": 400,
-                               "star_halfset_idx": 400, "update_coord": 600, "star_reload": 800, "inmem_roundtrip": 300,
-                               "converters": 450})
+                               "star_halfset_idx": 400, "update_coord": 1000, "star_reload": 800, "inmem_roundtrip": 300,
+                               "converters": 1200})
     return dict(n_cases=len(CLASSES) * 4 * 120, shards=16, classes=CLASSES, timeout_s=3000,
-                min_evals={"sg_export": 14000, "sg_import": 25000, "write_out_file": 7500, "star_fields": 7500,
-                           "star_halfset_idx": 7500, "update_coord": 12000, "star_reload": 16000, "inmem_roundtrip": 6500,
-                           "converters": 10000})
+                min_evals={"sg_export": 17000, "sg_import": 25000, "write_out_file": 10000, "star_fields": 10000,
+                           "star_halfset_idx": 10000, "update_coord": 19000, "star_reload": 16000, "inmem_roundtrip": 6500,
+                           "converters": 23000})
 
 
 # ---- call monitors (Layer A) ---------------------------------------------------------------------
@@ -176,6 +177,7 @@ def setup(ctx):
                                          "em(not judged)": "super().write_out("}),
         ("emmotl2stopgap", cryomotl.emmotl2stopgap, {"update": "sg_motl.update_coordinates()", "write": "sg_motl.write_out("}),
         ("stopgap2emmotl", cryomotl.stopgap2emmotl, {"update": "em_motl.update_coordinates()", "write": "em_motl.write_out("}),
+        ("relion2stopgap", cryomotl.relion2stopgap, {"update": "sg_motl.update_coordinates()", "write": "sg_motl.write_out("}),
         ("Motl.check_df_type", cryomotl.Motl.check_df_type, {"convert": "self.convert_to_motl(input_motl)"}),
         ("Motl.write_out", cryomotl.Motl.write_out, {"stopgap": "StopgapMotl(self.df).write_out(output_path)"}),
         ("Starfile.write", starfileio.Starfile.write), ("Starfile.read", starfileio.Starfile.read)])
@@ -478,9 +480,57 @@ def _rm(p):
         pass
 
 
+def _returned_object(ctx, conv_name, conv, src, path, case, E, src_kind):
+    """One converter call; the RETURNED object is judged whatever the output path is (None = in-memory conversion):
+    update_coordinates=False -> the 14 fields exactly; True -> update_coord form (complete position unchanged, x,y,z
+    integral, |shift| <= 0.5).  A written file is judged as well."""
+    upd, reset = case["upd"], case["reset"]
+    stage = "%s(%s, %s, update_coordinates=%s)" % (conv_name, src_kind, "path" if path else "None", upd)
+    ok, m = ctx.call("%s(%s)" % (conv_name, "path" if path else "None"), conv, src, path, upd, reset)
+    if not ok:
+        return
+    G = O.em_fields(getattr(m, "df", None)) if isinstance(getattr(m, "df", None), pd.DataFrame) else None
+    _judge(ctx, "converters", G, E, upd, "exact", stage=stage)
+    if upd:
+        w = O.cmp_positions_updated(G, E, "exact")
+        ctx.check("update_coord", w is None, dict(w, stage=stage + " returned object") if w else None)
+    if path:
+        if os.path.exists(path):
+            _check_file(ctx, path, E, upd, reset, stage)
+        else:
+            ctx.check("star_fields", False, {"what": "no file written", "route": stage})
+        _rm(path)
+
+
+def _converter_matrix(ctx, case, t, E, rng):
+    """emmotl2stopgap / relion2stopgap x output path in {None, file}; update_coordinates and reset_index come from the
+    case's stratified flags, so every (update, path) combination of both converters is produced in every run."""
+    cm = ctx.cm
+    k = (case["i"] // (4 * len(CLASSES))) if isinstance(case["i"], int) else int(rng.integers(0, 4))
+    p1 = os.path.join(ctx.scratch, "conv_%s.star" % case["i"])
+    # emmotl2stopgap always in memory here (the file form is one of the entry routes); relion2stopgap alternates
+    if rng.random() < 0.5:
+        src, kind = t, "df"
+    else:
+        ok, src = ctx.call("EmMotl(df)", cm.EmMotl, t)
+        kind = "EmMotl"
+        if not ok:
+            src, kind = t, "df"
+    _returned_object(ctx, "emmotl2stopgap", cm.emmotl2stopgap, src, None, case, E, kind)
+    if rng.random() < 0.5:
+        src, kind = t, "df"
+    else:
+        ok, src = ctx.call("RelionMotl(df)", cm.RelionMotl, t)
+        kind = "RelionMotl"
+        if not ok:
+            src, kind = t, "df"
+    _returned_object(ctx, "relion2stopgap", cm.relion2stopgap, src, p1 if k % 2 else None, case, E, kind)
+
+
 def _standard(ctx, case, t, E, rng):
     path = os.path.join(ctx.scratch, "sg_%s.star" % case["i"])
     _inmem(ctx, case, t, E, rng)
+    _converter_matrix(ctx, case, t, E, rng)
     if _export_via_route(ctx, case, t, E, path):
         if os.path.exists(path):
             _check_file(ctx, path, E, case["upd"], case["reset"], case["route"])
@@ -618,5 +668,6 @@ def extra(ctx):
                 if ok:
                     _judge(ctx, "star_reload", O.em_fields(back.df), E, case["upd"], "star", 1.0 if case["upd"] else 2.0, loader="exhaustive")
             _rm(path)
+            _returned_object(ctx, "emmotl2stopgap", ctx.cm.emmotl2stopgap, df, None, case, E, "df")
             cnt += 1
     ctx.extra["N=1..%d x reset_index x update_coord (object path, file, reload)" % K] = cnt
